@@ -66,6 +66,7 @@ class FnSpec:
         self.returns = None       # override for named-return
         self.is_item = False      # verbatim type/const item rather than a function
         self.what = None
+        self.at = None
 
     @property
     def name(self):
@@ -108,6 +109,8 @@ def parse_file(path):
                 cur.src = arg
             elif d == 'what':
                 cur.what = arg
+            elif d == 'at':
+                cur.at = arg
             elif d == 'scope':
                 cur.scope = arg
             elif d == 'emit':
